@@ -57,6 +57,7 @@ def part_a():
     ok &= mc_expect("Drop.tla", "MC_Drop_pinned.cfg", "drop_wait_before_close", False)
     ok &= mc_expect("Drop.tla", "MC_Drop_noreadfix.cfg", "drop_adapter_closes_one_end", False)
     ok &= mc_expect("Drop.tla", "MC_Drop_noerrfix.cfg", "drop_stderr_end_held_during_wait", False)
+    ok &= mc_expect("Drop.tla", "MC_Drop_norelease.cfg", "drop_ends_released_one_popen_at_a_time", False)
     ok &= mc_expect("Drop.tla", "MC_Drop.cfg", "drop_repaired", True)
     ok &= mc_expect("MCPipeline.tla", "MC_Pipeline_clone.cfg", "pipeline_stdout_cloned", False)
     ok &= mc_expect("MCPipeline.tla", "MC_Pipeline_rebuild.cfg", "pipeline_rebuilt_on_append", False)
